@@ -70,6 +70,7 @@ def frame_st():
 def pure_cases(draw):
     c = draw(geom())
     c["mode"] = draw(st.sampled_from(MODES))
+    c["twin"] = draw(st.sampled_from([False, False, True]))
     c["frame"] = draw(st.one_of(st.just([0, -2]), frame_st()))
     if c["mode"] in ("width", "height"):
         c["given"] = draw(st.one_of(st.integers(1, 10), st.integers(1, 300)))
@@ -187,6 +188,16 @@ def check_pure(c, rec):
     if mode == "AUTO":
         for m in ("ORIGINAL", "FIT"):
             results[m] = lib(lambda: compute(image, m, frame, None), f"set_size({m})")
+    if c.get("twin"):
+        # another image object of the OTHER style family, same source size, asked the same thing just before
+        other = make(dict(c, family="block" if c["family"] == "kitty" else "kitty"))
+        try:
+            compute(other, mode, frame, given)
+            other.rendered_size
+        except Exception:
+            pass
+        other.close()
+        rec.label("twin_other_family")
     size = lib(lambda: compute(image, mode, frame, given), f"set_size({mode})")
     flags = check_size_result(c, size, mode, frame, c["cols"], c["rows"], given, g, rec, results)
     # the same mode via width= / height= keyword positions and via rendered_size of a dynamic size
@@ -208,7 +219,7 @@ def check_pure(c, rec):
 # ------------------------------------------------------------------------------ histories
 
 OPS = ["set_size_mode", "set_size_manual", "set_width", "set_height", "assign_size_enum", "assign_size_tuple",
-       "resize", "ratio", "cell", "render", "read"]
+       "resize", "ratio", "cell", "render", "read", "ratio_auto_rejected"]
 
 
 @st.composite
@@ -289,6 +300,23 @@ def check_history(c, rec):
             cur["ratio"] = o["ratio"]
             TI.set_cell_ratio(o["ratio"])
             changed_after_fixed |= model[0] == "fixed"
+        elif k == "ratio_auto_rejected":
+            # an automatic cell ratio is requested where the cell size cannot be determined: rejected, and the
+            # ratio in effect (hence every later size) stays what it was
+            if cur["cell"] is None:
+                for auto in (TI.AutoCellRatio.FIXED, TI.AutoCellRatio.DYNAMIC):
+                    TI.AutoCellRatio.is_supported = None
+                    try:
+                        TI.set_cell_ratio(auto)
+                    except TI.exceptions.TermImageError:
+                        pass
+                    else:
+                        raise Violation(f"set_cell_ratio({auto}) accepted although the cell size is unknown", {"kind": "auto_ratio_accepted"})
+                TI.AutoCellRatio.is_supported = None
+                if TI.get_cell_ratio() != cur["ratio"]:
+                    raise Violation(f"a rejected set_cell_ratio(AutoCellRatio...) changed the cell ratio {cur['ratio']} -> {TI.get_cell_ratio()}",
+                                    {"kind": "auto_ratio_rejected_but_changed"})
+                rec.label("auto_ratio_rejected")
         elif k == "cell":
             cur["cell"] = o["cell"]
             env.apply(cell=o["cell"])
